@@ -240,6 +240,44 @@ def c08_narrow(ctx, case):
                  % (i, abs(Af[i]), got[i], exp[i], got[i] / exp[i], rtol[i]), sig={"clause": "narrow-band"})
 
 
+# ---- the Daniell periodogram class (not among the estimator rows: it has no model orders and smooths over 2P+1 bins) -------
+@st.composite
+def daniell_case(draw):
+    cplx = draw(st.booleans())
+    x = draw(gen.signal(n=draw(gen.lengths(16, 64)), dtype="complex" if cplx else "real", kinds=KINDS, noise_levels=(0.1, 1.0)))
+    N = x["n"]
+    nfft = draw(gen.nfft_at_least(N, hi_mult=2, allow_none=True))
+    n = gen.resolve_nfft(nfft, N)
+    L = n if cplx else n // 2 + 1           # bins to smooth: at least one full group of 2P+1
+    return {"x": x, "P": draw(st.integers(1, max(1, min(8, (L - 1) // 2)))), "nfft": nfft,
+            "s1": draw(gen.sampling), "flag": draw(est.flag_forms)}
+
+
+@sub("C08.daniell", strategy=daniell_case(), quick=400, thorough=8000,
+     doc="pdaniell (P >= 1): psd(scale_by_freq=True) == psd(scale_by_freq=False) * 2 pi NFFT / sampling for the NFFT given "
+         "(the smoothing over 2P+1 bins changes neither the factor nor how often it is applied)")
+def c08_daniell(ctx, case):
+    x = gen.realise(case["x"])
+    x = x.astype(complex) if np.iscomplexobj(x) else x.astype(float)
+    fs, P = case["s1"], case["P"]
+    nfft = gen.resolve_nfft(case["nfft"], len(x))
+    form = case.get("flag", "py")
+    sig = {"row": "pdaniell", "clause": "scale"}
+    ctx.sig_on_exception = sig
+    a = spectrum.pdaniell(x, P, NFFT=case["nfft"], sampling=fs, scale_by_freq=est.flag(False, form))
+    b = spectrum.pdaniell(x, P, NFFT=case["nfft"], sampling=fs, scale_by_freq=est.flag(True, form))
+    pa, pb = np.real(np.asarray(a.psd)), np.real(np.asarray(b.psd))
+    ctx.cls("complex" if np.iscomplexobj(x) else "real", "P=1" if P == 1 else "P>1", "flag=" + form)
+    ctx.nontrivial(fs != 1.0 or nfft != len(x))
+    ctx.check(pa.shape == pb.shape and pa.size > 0, "pdaniell: shape depends on scale_by_freq (%s vs %s)" % (pa.shape, pb.shape), sig=sig)
+    if not (np.all(np.isfinite(pa)) and float(np.max(np.abs(pa))) > 0):
+        ctx.exclude("unscaled Daniell estimate not finite / zero")
+        return
+    factor = 2 * np.pi * nfft / fs
+    ctx.close(pb, pa * factor, "pdaniell(P=%d): psd(True) vs psd(False) * 2 pi NFFT/sampling (NFFT=%d, sampling=%g)" % (P, nfft, fs),
+              rtol=1e-12, atol=1e-300, sig=sig)
+
+
 # ---- call-form invariance (documented parameter names) ----------------------------
 from vlib import kwcheck as _kw   # noqa: E402
 
